@@ -143,6 +143,7 @@ func run(c *lib.Ctx) error {
 	}
 	var defs strings.Builder
 	var targets []target
+	pairs := lib.NewPairCover()
 	for ai, a := range assets {
 		ref := a.Ref()
 		N := int64(len(ref.Segs))
@@ -153,17 +154,27 @@ func run(c *lib.Ctx) error {
 				fmt.Fprintf(&defs, "Definition %s : rep := %s.\n", name, lib.CoqRep(r.VodRep))
 			}
 			for k := 0; k < nCfg; k++ {
-				cfg := lib.TLCfg{StartS: starts[rng.Intn(len(starts))], Snr: snrs[rng.Intn(len(snrs))], Tsbd: tsbds[rng.Intn(len(tsbds))], Mode: modes[rng.Intn(3)]}
-				switch rng.Intn(6) {
-				case 0:
-					cfg.AtoMS = -1
-				case 1:
-					cfg.AtoMS = segMS / 4
-				case 2:
-					cfg.AtoMS = segMS + 500
-				case 3:
-					cfg.AtoMS = 1 + rng.Int63n(segMS-1)
+				// eight random candidates; the one that covers the most new pairs of option values for this
+				// track kind is taken (interactions of two options that are each fine alone)
+				var cands []lib.TLCfg
+				for q := 0; q < 8; q++ {
+					cand := lib.TLCfg{StartS: starts[rng.Intn(len(starts))], Snr: snrs[rng.Intn(len(snrs))], Tsbd: tsbds[rng.Intn(len(tsbds))], Mode: modes[rng.Intn(3)]}
+					switch rng.Intn(6) {
+					case 0:
+						cand.AtoMS = -1
+					case 1:
+						cand.AtoMS = segMS / 4
+					case 2:
+						cand.AtoMS = segMS + 500
+					case 3:
+						cand.AtoMS = 1 + rng.Int63n(segMS-1)
+					}
+					if r.Kind == "image" {
+						cand.Mode = "number"
+					}
+					cands = append(cands, cand)
 				}
+				cfg := pairs.Pick(r.Kind, segMS, cands)
 				if k == 0 {
 					cfg = lib.TLCfg{Snr: -1, Tsbd: -1, Mode: modes[(ai+ri)%3]}
 				}
@@ -189,6 +200,7 @@ func run(c *lib.Ctx) error {
 					default:
 						n = rng.Int63n(2000000)
 					}
+					pairs.Add(r.Kind, segMS, cfg)
 					t := target{a: a, r: r, cfg: cfg, n: n, name: name, model: r.Kind != "audio"}
 					if r.Kind == "audio" {
 						// audio follows the reference (video) segment with the same index
@@ -390,6 +402,7 @@ func run(c *lib.Ctx) error {
 	c.Res.Evaluations = len(jobs)
 	c.Res.ModelCases = len(terms)
 	c.Res.DistinctNontrivial = len(distinct)
+	c.Res.Notes = append(c.Res.Notes, pairs.Summary())
 	c.Res.Rule = "for each bundled asset x representation (video, text, image; audio by the oracle only) x sampled configuration (start in {0,30,1.6e9}, tsbd in {default,0,1,60,3600,172800}, startNumber in {unset,0,1,7}, availabilityTimeOffset in {0, 1/4 segment, random fraction, segment+0.5s, inf}, Number / Timeline-Number / Timeline-Time) x segment index (first loop, around a wrap, far): the instants A-2..A+2 ms, (A+tsbd+10s)-2..+2 ms, one random instant in each phase, before stream start; plus 404 requests; distinct = distinct (URL, phase) pairs answered as the property demands"
 	for i := 0; i < 3 && i < len(jobs); i++ {
 		k := (i*7919 + 13) % len(jobs)
